@@ -340,7 +340,13 @@ pub fn run(cx: &mut Ctx) {
         cx.log.note("miri", "expected values for Groestl/JH/Skein come from the implementation's digest of an aligned copy (alignment-independence), not from the reference models");
     }
     let levels = api::backend_levels();
-    let hashes = api::hashes15(64);
+    let mut hashes = api::hashes15(64);
+    // Skein output sizes that are not a multiple of the word size (the output array ends inside a word)
+    for bits in [256u32, 512, 1024] {
+        for out in [7usize, 20, 28, 33, 100] {
+            hashes.push(HashId { fam: api::Fam::Skein, bits, out });
+        }
+    }
     cx.log.note("placement", if crate::guard::use_mmap() { "mmap guard pages" } else { "exact-size heap allocations (tool red zones)" });
     for i in 0..cx.budget {
         let place = match rng.below(5) {
